@@ -1,10 +1,13 @@
 (* The loader as it was BEFORE the commits
      2f69527 "fix: sparse file loader handles an empty index and a zero-length read at the end"
-     0331e86 "fix: sparse file start-up replaces a saved state it did not use".
+     0331e86 "fix: sparse file start-up replaces a saved state it did not use"
+     61c4b65 "fix: sparse file reader reports a store's io.EOF as an unexpected EOF".
    Only the differences to Model/Sparse.v are written here, as wrappers around [step]:
      * indexRange tested `length < 1` BEFORE `firstChunk >= len(chunks)` and loadRange had no early return for an
        empty chunk list ([index_range_pre], the scan step of [step_pre]);
-     * NewSparseFile left the saved state on disk when it did not use it ([restart_pre]). *)
+     * NewSparseFile left the saved state on disk when it did not use it ([restart_pre]);
+     * ReadAt handed a store error that IS io.EOF to its caller unchanged: (0, io.EOF), the observation "end of file"
+       ([fix_eof] = false in [step_pre]). *)
 From Coq Require Import List NArith ZArith Arith Bool.
 From DS Require Import Base.Bytes Base.Hash Model.ReadSeeker Model.Sparse.
 Import ListNotations.
@@ -38,11 +41,32 @@ Section Pre.
     else mkstate (s_done s') (s_file s') (s_calls s') (s_mutex s') (s_saved s) (s_threads s') (s_log s')
                  (s_crashed s') (s_fetched s').
 
-  (* fix_range / fix_state select which of the two fixes is in place, so that each refutation isolates one defect *)
-  Definition step_pre (fix_range fix_state : bool) (s : sstate) (l : label) : option sstate :=
+  (* before 61c4b65: when the fetch of a reader fails with io.EOF itself, the caller observes (0, io.EOF) *)
+  Definition eof_through (s : sstate) (k : nat) : option sstate :=
+    match nth_error (s_threads s) k with
+    | Some (mkthread (RqRead off len :: q) (Some (PFetch i todo))) =>
+        match store (s_calls s) (r_id (nth i idx row0)) with
+        | SFail c =>
+            if N.eqb c code_bare_eof && negb (s_crashed s) then
+              match step idx nullid store s (LThread k) with
+              | Some s' => Some (mkstate (s_done s') (s_file s') (s_calls s') (s_mutex s') (s_saved s') (s_threads s')
+                                         ((RqRead off len, ROk [] true) :: s_log s) (s_crashed s') (s_fetched s'))
+              | None => None
+              end
+            else None
+        | _ => None
+        end
+    | _ => None
+    end.
+
+  (* fix_range / fix_state / fix_eof select which of the fixes are in place, so that each refutation isolates one defect *)
+  Definition step_pre (fix_range fix_state fix_eof : bool) (s : sstate) (l : label) : option sstate :=
     match l with
     | LRestart m => if fix_state then step idx nullid store s l else Some (restart_pre s m)
     | LThread k =>
+        match (if fix_eof then None else eof_through s k) with
+        | Some s' => Some s'
+        | None =>
         if fix_range then step idx nullid store s l
         else if s_crashed s then None
         else
@@ -60,6 +84,7 @@ Section Pre.
               end
           | _ => step idx nullid store s l
           end
+        end
     | _ => step idx nullid store s l
     end.
 End Pre.
